@@ -462,6 +462,19 @@ def write_if_changed(path, text):
             f.write(text)
 
 
+def restore_committed(section):
+    path = os.path.normpath(os.path.join(OUT_DIR, section + ".lean"))
+    root = os.path.dirname(os.path.dirname(os.path.abspath(__file__)))
+    rel = os.path.relpath(path, root)
+    try:
+        import subprocess
+        p = subprocess.run(["git", "-C", root, "show", "HEAD:" + rel], stdout=subprocess.PIPE, stderr=subprocess.DEVNULL)
+        if p.returncode == 0 and p.stdout:
+            write_if_changed(path, p.stdout.decode("utf-8"))
+    except OSError:
+        pass
+
+
 def generate(section):
     """Regenerate lean/Penguin/Gen/<section>.lean. Returns None on success, else the reason."""
     out = [f"/- GENERATED by bin/gen_constants.py ({section}) from /repo's current source on every run. Do not edit. -/",
@@ -469,6 +482,9 @@ def generate(section):
     try:
         SECTIONS[section](out)
     except Broken as e:
+        # the source no longer has the shape the patterns expect: the generated file must not keep values
+        # from an earlier run on another tree - put back the committed one (generated from the pinned tree)
+        restore_committed(section)
         return str(e)
     out += ["", "end Penguin.Constants"]
     write_if_changed(os.path.normpath(os.path.join(OUT_DIR, section + ".lean")), "\n".join(out) + "\n")
